@@ -6,6 +6,7 @@ package recovery
 
 import (
 	"bytes"
+	"time"
 
 	"verif/sim/internal/eng"
 	"verif/sim/internal/sched"
@@ -89,6 +90,12 @@ func (Engine) Run(t *tape.Tape, o eng.Opts) *eng.Result {
 		all = append(all, l...)
 	}
 	w := world.Build(setup, all, world.BuildOpts{})
+	// a quarter of the runs are open workloads: requests arrive on the virtual clock, so the
+	// number in flight rises and falls and idle periods pass between requests (see conc)
+	if sw.Intn(4) == 1 {
+		world.GenArrivals(t.Stream("arrival"), reqs)
+	}
+	sched.SetTick([]time.Duration{time.Millisecond, 100 * time.Microsecond, 10 * time.Millisecond, 100 * time.Millisecond}[sw.Intn(4)])
 	sr := w.RunTasks(reqs, cfg, res)
 	res.Requests = len(all)
 	res.Cases = len(all)
